@@ -62,8 +62,19 @@ m U4.bp_reorder_counters 0 $SL 'idle_loop_count = 0;\s*\+\+busy_loop_count;' '++
 m O.sts_no_requeue 1 $STS 'scheduler->schedule_thread\(thrd, schedulehint, false, thrd_data->get_priority\(\)\);' '' '^other.set_thread'
 m O.sts_requeue_pending 1 $STS 'if \(!\(previous_state_val == thread_schedule_state::pending \|\|' 'if ((previous_state_val == thread_schedule_state::pending ||' '^other.set_thread'
 m O.sts_allows_active 1 $STS 'if \(new_state == thread_schedule_state::active\)' 'if (false && new_state == thread_schedule_state::active)' '^other.set_thread'
-m O.sts_writes_terminated 1 $STS 'case thread_schedule_state::suspended: break;' 'case thread_schedule_state::suspended: break; case thread_schedule_state::staged: return previous_state;' '^other.set_thread'
+m O.sts_writes_terminated 1 $STS 'anymore\.\s*return previous_state;' 'anymore.\n                break;' '^other.set_thread'
 m O.sts_same_state_steps 1 $STS 'if \(new_state == previous_state_val\)' 'if (false && new_state == previous_state_val)' '^other.set_thread'
 m O.abort_unconditional 1 $TQ 'if \(state\.state\(\) == threads::detail::thread_schedule_state::suspended &&' 'if (' '^other.abort'
 m O.abort_no_schedule 1 $TQ 'PIKA_ASSERT\(thrd->count_ > 1\);\s*schedule_thread\(threads::detail::thread_id_ref_type\(thrd\)\);' 'PIKA_ASSERT(thrd->count_ > 1); if (false) schedule_thread(threads::detail::thread_id_ref_type(thrd));' '^other.abort'
 m O.runner_enters_twice 1 $SF 'return coroutine_\(set_state_ex\(thread_restart_state::signaled\)\);' 'coroutine_(thread_restart_state::signaled); return coroutine_(set_state_ex(thread_restart_state::signaled));' '^other.runner'
+# ---- U5 slice
+m Q.push_before_count 1 $TQ '\+\+work_items_count_\.data_;(\s*#ifdef PIKA_HAVE_THREAD_QUEUE_WAITTIME.*?#else.*?)work_items_\.push\(thrd\.detach\(\), other_end\);' '\1work_items_.push(thrd.detach(), other_end); ++work_items_count_.data_;' '^queue.schedule'
+m Q.push_twice 1 $TQ 'work_items_\.push\(thrd\.detach\(\), other_end\);' 'work_items_.push(thrd.detach(), other_end); work_items_.push(thrd.detach(), other_end);' '^queue.schedule'
+m Q.push_no_count 1 $TQ '\+\+work_items_count_\.data_;(\s*#ifdef PIKA_HAVE_THREAD_QUEUE_WAITTIME)' '\1' '^queue.schedule'
+m Q.push_wrong_end 1 $TQ 'work_items_\.push\(thrd\.detach\(\), other_end\);' 'work_items_.push(thrd.detach(), !other_end);' '^queue.schedule'
+m Q.pop_dec_before 1 $TQ 'if \(0 != work_items_count && work_items_\.pop\(next_thrd, steal\)\)\s*\{\s*thrd\.reset\(next_thrd, false\);    // do not addref!\s*--work_items_count_\.data_;' '--work_items_count_.data_; if (0 != work_items_count && work_items_.pop(next_thrd, steal)) { thrd.reset(next_thrd, false);' '^queue.get_next'
+m Q.pop_no_dec 1 $TQ '(thrd\.reset\(next_thrd, false\);    // do not addref!\s*)--work_items_count_\.data_;' '\1' '^queue.get_next'
+m Q.pop_returns_true_always 1 $TQ '(--work_items_count_\.data_;\s*return true;\s*\}\s*#endif\s*)return false;' '\1return true;' '^queue.get_next'
+m Q.pop_drops_result 1 $TQ 'thrd\.reset\(next_thrd, false\);    // do not addref!' '' '^queue.get_next'
+m Q.bp_pop_order 0 $TQ 'thrd\.reset\(next_thrd, false\);    // do not addref!\s*--work_items_count_\.data_;' '--work_items_count_.data_; thrd.reset(next_thrd, false);' '^queue.get_next'
+m C.census_new_writer 2 $TQ 'PIKA_ASSERT\(&thrd->get_queue<thread_queue>\(\) == this\);' 'PIKA_ASSERT(&thrd->get_queue<thread_queue>() == this); thrd->set_state(threads::detail::thread_schedule_state::terminated);' '^lemma.ownership'
